@@ -19,6 +19,11 @@ def main(tier, t0):
     tasks += [(m, f, "targets/" + ob, dict(kw, cfg=dict(kw["cfg"], targets=["C", "D"]))) for (m, f, ob, kw) in
               stage_check.tasks_for("C16", tier, scenario="pair:e2e:" + json.dumps({"instances_cap": 50}), judge="SAME", sizes=lambda t, k: [3],
                                     structure_filter=lambda st: st["name"] in ("opt-literal", "ref-vs-iri"), cfg={"fixed_flags": {"disable_exact_cardinality": False}})]
+    # ignoring the namespace of the instantiation property itself: class membership is still read from the full graph
+    tasks += stage_check.tasks_for("C16", tier, scenario="pair:e2e:" + json.dumps({"namespaces_to_ignore": ["http://www.w3.org/1999/02/22-rdf-syntax-ns#"]}), judge="C16rdf",
+                                   sizes=lambda t, k: [k + 1] if t == "quick" else [k, k + 1, k + 2],
+                                   structure_filter=lambda st: st["name"] in ("opt-literal", "ref-vs-iri", "multi-typed", "own-links", "incoming-fresh"),
+                                   cfg={"fixed_flags": {"disable_exact_cardinality": False, "remove_empty_shapes": False}})
     results = run_pool(tasks, budget_s=600 if tier == "quick" else 3000)
     m, sm = strfn_check.meta("C16"), step_check.meta("C16")
     meta = dict(functions_encoded=m["functions_encoded"] + sm["functions_encoded"], bounds=dict(m["bounds"], **sm["bounds"]), stubs=["triples yielder of the tracker / filter: a python stub yielding harness-built model triples"],
